@@ -28,6 +28,7 @@ import (
 	"github.com/onflow/cadence/bbq/compiler"
 	"github.com/onflow/cadence/bbq/vm"
 	"github.com/onflow/cadence/common"
+	"github.com/onflow/cadence/errors"
 	"github.com/onflow/cadence/interpreter"
 	"github.com/onflow/cadence/sema"
 	"github.com/onflow/cadence/stdlib"
@@ -219,7 +220,7 @@ func (e *vmEnvironment) loadContractValue(
 ) *interpreter.CompositeValue {
 	addressLocation, ok := location.(common.AddressLocation)
 	if !ok {
-		panic(fmt.Errorf("cannot get contract value for non-address location %T", location))
+		panic(errors.NewDefaultUserError("failed to load contract: %s", location))
 	}
 
 	return loadContractValue(
